@@ -202,12 +202,14 @@ pub fn check_all(obs: &Obs, out: &mut CaseOut) -> Summary {
             // C06-flavoured sanity that C01/C03 rely on: the previous value reported is the previous state.
             let expect_prev = vh[l].last().map(|x| x.2);
             if *prev != expect_prev {
-                out.violation(
-                    "C01",
-                    "history/on-set-previous-mismatch",
-                    "on_set reported a previous value that is not the lane's previous state",
-                    json!({"lane": l, "reported": prev, "expected": expect_prev}),
-                );
+                for p in ["C01", "C06"] {
+                    out.violation(
+                        p,
+                        "history/on-set-previous-mismatch",
+                        "on_set reported a previous value that is not the lane's previous state",
+                        json!({"lane": l, "reported": prev, "expected": expect_prev}),
+                    );
+                }
             }
             vh[l].push((t_ev, *t_set, *new));
         }
@@ -245,7 +247,9 @@ pub fn check_all(obs: &Obs, out: &mut CaseOut) -> Summary {
             match ev {
                 MapEv::Upd { k, prev, new } => {
                     if cur.get(k).copied() != *prev {
-                        out.violation("C02", "history/on-update-previous-mismatch", "on_update reported a previous value that is not the entry's previous state", json!({"lane": l, "key": k, "reported": prev, "expected": cur.get(k)}));
+                        for p in ["C02", "C06"] {
+                            out.violation(p, "history/on-update-previous-mismatch", "on_update reported a previous value that is not the entry's previous state", json!({"lane": l, "key": k, "reported": prev, "expected": cur.get(k)}));
+                        }
                     }
                     cur.insert(*k, *new);
                     epoch.insert(*new, clears);
@@ -253,14 +257,18 @@ pub fn check_all(obs: &Obs, out: &mut CaseOut) -> Summary {
                 }
                 MapEv::Rem { k, prev } => {
                     if cur.get(k) != Some(prev) {
-                        out.violation("C02", "history/on-remove-previous-mismatch", "on_remove reported a previous value that is not the entry's previous state", json!({"lane": l, "key": k, "reported": prev, "expected": cur.get(k)}));
+                        for p in ["C02", "C06"] {
+                            out.violation(p, "history/on-remove-previous-mismatch", "on_remove reported a previous value that is not the entry's previous state", json!({"lane": l, "key": k, "reported": prev, "expected": cur.get(k)}));
+                        }
                     }
                     cur.remove(k);
                     keys.entry(*k).or_default().push((prev_t, *t, KS::Absent));
                 }
                 MapEv::Clr { prev } => {
                     if *prev != cur {
-                        out.violation("C02", "history/on-clear-previous-mismatch", "on_clear reported a previous map that is not the lane's previous state", json!({"lane": l}));
+                        for p in ["C02", "C06"] {
+                            out.violation(p, "history/on-clear-previous-mismatch", "on_clear reported a previous map that is not the lane's previous state", json!({"lane": l}));
+                        }
                     }
                     for k in cur.keys() {
                         keys.entry(*k).or_default().push((prev_t, *t, KS::Absent));
@@ -270,7 +278,9 @@ pub fn check_all(obs: &Obs, out: &mut CaseOut) -> Summary {
                 }
             }
             if obs.rec.map_sizes[l].get(i).copied() != Some(cur.len()) {
-                out.violation("C02", "history/map-size-mismatch", "the map handed to a lifecycle callback does not have the size the operations imply", json!({"lane": l, "at": i}));
+                for p in ["C02", "C06"] {
+                    out.violation(p, "history/map-size-mismatch", "the map handed to a lifecycle callback does not have the size the operations imply", json!({"lane": l, "at": i}));
+                }
             }
             prev_t = *t;
             states.push(cur.clone());
